@@ -1218,7 +1218,8 @@ class Interp:
         lo = self.eval(node.slice.lower, env) if node.slice.lower is not None else ZERO
         bounds = [ZERO]
         for x in base.items:
-            bounds.append(bounds[-1] + (x.rng.count if isinstance(x, GenList) else ONE))
+            gs = len(x.elem.items) if isinstance(x, GenList) and isinstance(x.elem, Tup) and x.elem.kind == "group" else 1
+            bounds.append(bounds[-1] + (x.rng.count * gs if isinstance(x, GenList) else ONE))
         hi = self.eval(node.slice.upper, env) if node.slice.upper is not None else bounds[-1]
         if node.slice.step is not None or not (isinstance(lo, Expr) and isinstance(hi, Expr)):
             return Unknown("slice of a generated list")
